@@ -6,7 +6,7 @@ from .common import *
 
 META = {
     'title': 'Bits operators: one template for & | ^ + - (copy of the wider operand, masked payload), unary ops, shifts, indexing/assignment branches, concatenation, split, extension; no operator writes its operands',
-    'expected_min': 30,
+    'expected_min': 84,
     'explanation': 'The five binary operators are compared with one template instantiated with their operator (sibling agreement) and the reduction '
                    '& res.mask for + and -; __neg__ reduces with & mask; __mul__ handles both operand kinds; shifts, invert, getitem/setitem (int, '
                    'contiguous-slice fast path with its exact clearing mask, index list), floordiv, split, extension, hw/hd and the reflected operators '
